@@ -482,4 +482,28 @@ example : ∃ (p : Cog2.P) (r t : ℝ), 0 < r ∧ 0 < t ∧ 0 < p.rho0 ∧ 1 < p
   ⟨⟨40, 0, 0, 6 / 5, 0, 0, 7 / 5, 3, 0, 9 / 5⟩, 1, 1, by norm_num, by norm_num, by norm_num, by norm_num, by norm_num,
     by norm_num, by norm_num⟩
 
+/-! ### non-vacuity of further hypothesis sets (class defaults; α = -3/2 inside the advised range) -/
+
+example : ∃ (p : Noh.P) (r t : ℝ), 1 < p.gamma ∧ 0 < r ∧ 0 ≤ t := ⟨⟨5 / 3, 3, 1, -1⟩, 1, 0, by norm_num, by norm_num, le_refl _⟩
+
+example : ∃ (p : Cog3.P) (r : ℝ), 0 < r ∧ 0 < p.rho0 ∧ 0 < p.Gamma ∧ p.v ≠ 0 ∧ (p.geometry - 1) - p.v - 1 ≠ 0 ∧
+    0 < p.geometry :=
+  ⟨⟨40, 0, 0, 6 / 5, 0, 0, 3, 0, 9 / 5, 1 / 2⟩, 1, by norm_num, by norm_num, by norm_num, by norm_num, by norm_num,
+    by norm_num⟩
+
+example : ∃ (p : Cog9.P) (r t : ℝ), 0 < r ∧ 0 < t ∧ 0 < p.rho0 ∧ 1 < p.gamma ∧ 0 < p.Gamma ∧ p.alpha < 0 ∧ 0 ≤ p.beta ∧
+    1 ≤ p.geometry :=
+  ⟨⟨40, 0, -3 / 2, 0, 1, 0, 0, 7 / 5, 3, 0, 9 / 5⟩, 1, 1, by norm_num, by norm_num, by norm_num, by norm_num, by norm_num,
+    by norm_num, by norm_num, by norm_num⟩
+
+example : ∃ (p : Cog19.P) (r t : ℝ), 0 < r ∧ 0 ≤ t ∧ 0 < p.rho0 ∧ 1 < p.gamma ∧ 0 < p.Gamma ∧ p.u0 < 0 :=
+  ⟨⟨40, 0, 0, 0, 0, 7 / 5, 3, 0, 9 / 5, -23 / 10⟩, 1, 1, by norm_num, by norm_num, by norm_num, by norm_num, by norm_num,
+    by norm_num⟩
+
+/-- the catalogue is satisfiable: the class defaults of Noh and Cog16 are documented-valid -/
+example : Noh.Documented ⟨3, -1⟩ ∧ Cog16.Documented ⟨6 / 5, 3⟩ := by
+  constructor
+  · exact ⟨Or.inr (Or.inr rfl), by norm_num⟩
+  · exact ⟨Or.inr rfl, by norm_num⟩
+
 end EPV.C20
